@@ -1,5 +1,7 @@
 package erpc
 
+import "github.com/henrylee2cn/erpc/v6/socket"
+
 func init() {
 	vxRegister("VX_C10_RealRoutes", VX_C10_RealRoutes)
 }
@@ -50,7 +52,7 @@ func VX_C10_RealRoutes(args []int) {
 	vxCtrlSeqs, vxCtrlArgs, vxPushNotes, vxFuncCalls = nil, nil, nil, 0
 	p := vxNewPeer()
 	names := p.RouteCall(new(VxCtrl))
-	vxAssert(len(names) == 2 && names[0] == "/vx_ctrl/echo_it" && names[1] == "/vx_ctrl/fail_it", "struct registration returns one name per handler method")
+	vxAssert(len(names) == 3 && names[0] == "/vx_ctrl/echo_it" && names[1] == "/vx_ctrl/fail_it" && names[2] == "/vx_ctrl/gate_it", "struct registration returns one name per handler method")
 	fname := p.RouteCallFunc(VxFuncHandler)
 	vxAssert(fname == "/vx_func_handler", "function registration returns its name")
 	pnames := p.RoutePush(new(VxPushCtrl))
@@ -92,4 +94,83 @@ func VX_C10_RealRoutes(args []int) {
 		vxAssert(string(vxBodyOf(m4)) == "f:y", "function handler's result replied")
 	}
 	vxCover("c10.realroutes")
+}
+
+func init() { vxRegister("VX_C01_CtrlOverlap", VX_C01_CtrlOverlap) }
+
+var vxGate chan struct{}
+var vxEntered chan string
+var vxCtrlSeen []string
+
+// GateIt parks until the harness opens the gate, then reports what its own
+// context says about its request and stamps its reply.
+func (c *VxCtrl) GateIt(arg *[]byte) ([]byte, *Status) {
+	vxEntered <- string(*arg)
+	<-vxGate
+	tok := string(c.PeekMeta("token"))
+	vxCtrlSeen = append(vxCtrlSeen, string(*arg)+"|"+tok+"|"+c.Session().ID())
+	c.SetMeta("owner", tok)
+	return append(append([]byte{}, *arg...), []byte("|"+tok)...), nil
+}
+
+// VX_C01_CtrlOverlap: two invocations of the same struct-controller method
+// (registered through the real RouteCall) overlap in time, on the same or on
+// two sessions; each sees its own request through its embedded context and its
+// reply metadata goes out with its own reply. args: twoSessions(0/1), nTok
+func VX_C01_CtrlOverlap(args []int) {
+	vxGate, vxEntered, vxCtrlSeen = make(chan struct{}), make(chan string, 2), nil
+	p := vxNewPeer()
+	p.RouteCall(new(VxCtrl))
+	t1, t2 := "A"+vxString("t1", args[1]), "B"+vxString("t2", args[1])
+	for k := 1; k < len(t1); k++ {
+		vxAssume(t1[k] >= 'a' && t1[k] <= 'z' && t2[k] >= 'a' && t2[k] <= 'z')
+	}
+	c1 := newVxConn("srv:1", "alice:1")
+	_, st := p.ServeConn(c1)
+	vxAssume(st.OK())
+	c2 := c1
+	if args[0] == 1 {
+		c2 = newVxConn("srv:1", "bob:2")
+		_, st = p.ServeConn(c2)
+		vxAssume(st.OK())
+	}
+	c1.feed(vxFrame(TypeCall, 1, "/vx_ctrl/gate_it", []byte("first"), socket.WithAddMeta("token", t1)))
+	vxWaitIdle()
+	c2.feed(vxFrame(TypeCall, 2, "/vx_ctrl/gate_it", []byte("second"), socket.WithAddMeta("token", t2)))
+	vxWaitIdle()
+	vxAssert(len(vxEntered) == 2, "both invocations are running")
+	close(vxGate)
+	vxWaitIdle()
+	vxAssert(len(vxCtrlSeen) == 2, "both finished")
+	for _, s := range vxCtrlSeen {
+		ok := s == "first|"+t1+"|alice:1" || (s == "second|"+t2+"|bob:2" && args[0] == 1) || (s == "second|"+t2+"|alice:1" && args[0] == 0)
+		vxAssert(ok, "an invocation sees its own request's metadata and session through its context, not the overlapping one's")
+	}
+	check := func(w []byte, seq int32, arg, tok string) {
+		m, err := vxParse(w)
+		vxAssert(err == nil && m.Seq() == seq && m.StatusOK(), "[C03] reply for the call")
+		if err == nil {
+			vxAssert(string(vxBodyOf(m)) == arg+"|"+tok, "the result is what the handler computed from its own request")
+			vxAssert(string(m.Meta().Peek("owner")) == tok, "reply metadata set by an invocation goes out with its own reply")
+		}
+	}
+	var w1, w2 []byte
+	for _, c := range []*vxConn{c1, c2} {
+		for _, w := range c.writes {
+			if m, err := vxParse(w); err == nil && m.Seq() == 1 {
+				w1 = w
+			} else if err == nil && m.Seq() == 2 {
+				w2 = w
+			}
+		}
+		if args[0] == 0 {
+			break
+		}
+	}
+	vxAssert(w1 != nil && w2 != nil, "[C03] both calls answered")
+	if w1 != nil && w2 != nil {
+		check(w1, 1, "first", t1)
+		check(w2, 2, "second", t2)
+	}
+	vxCover("c01.ctrl-overlap")
 }
